@@ -34,7 +34,7 @@ CHECKS = {
     "C09": dict(
         cat="model_checking", ref="DESIGN.md §4 C09",
         technique="TLA+ spec Generation.tla (claim / finish / fail / commit / abort per child, serial and parallel modes); TLC explores every interleaving and failure position for N=3/4 children on 2/3 workers over two steps with atomicity, freshness, own-randomness and liveness properties; real serial_next / par_next runs in rayon pools of 1-16 threads trace-validated against the same actions; Evolution.tla (whole-run composition) model-checked and trace-validated against real example-style pipelines",
-        text="The one concurrent component is modelled as explicit per-child actions; TLC checks over all schedules and every set of failing calls that the population is never torn, is replaced by exactly N fresh distinct children or left untouched with the error of a failed child, that no two children share a draw and that every step terminates. Real steps (N in {0,1,2,3,8,33}, pools of 1..16 threads, failures at seeded call positions, perturbed schedules, two consecutive steps on one Generation) are recorded by an instrumented child-maker operator and must be behaviours of that specification. Set-like populations (BTreeSet, HashSet: children with equal keys collapse, the next step makes as many children as the population then has) and VecDeque / LinkedList populations are modelled (kind, key) and run. A second specification, Evolution.tla, composes Selection, Variation, the scorer contract and the generation step into the whole run of the repository's examples; TLC checks it over every initial population for 8 configurations and validates, stage by stage, real count_ones-style pipelines (DynWeighted mix, Select.apply_twice, then_map(GenomeExtractor), Recombine, Mutate, GenomeScorer, serial_next / par_next).",
+        text="The one concurrent component is modelled as explicit per-child actions; TLC checks over all schedules and every set of failing calls that the population is never torn, is replaced by exactly N fresh distinct children or left untouched with the error of a failed child, that no two children share a draw and that every step terminates. Real steps (N in {0,1,2,3,8,33}, pools of 1..16 threads, failures at seeded call positions, perturbed schedules, two consecutive steps on one Generation) are recorded by an instrumented child-maker operator and must be behaviours of that specification. Set-like populations (BTreeSet, HashSet: children with equal keys collapse, the next step makes as many children as the population then has) and VecDeque / LinkedList populations are modelled (kind, key) and run. A second specification, Evolution.tla, composes Selection, Variation, the scorer contract and the generation step into the whole run of the repository's examples; TLC checks it over every initial population for 8 configurations and validates, stage by stage, real count_ones-style pipelines (DynWeighted mix, Select.apply_twice, then_map(GenomeExtractor), Recombine, Mutate, GenomeScorer, serial_next / par_next). Return events carry what the population says about its own size and emptiness; a 64-bit word drawn by a child never comes back in another run (another pool) of the process.",
         note="Real schedules are sampled, not enumerated (no scheduler hook); exhaustive interleavings are on the model. Own randomness is observed as pairwise-distinct 64-bit draws."),
     "C10": dict(
         cat="model_checking", ref="DESIGN.md §4 C10",
@@ -49,7 +49,7 @@ CHECKS = {
     "C06": dict(
         cat="model_checking", ref="DESIGN.md §4 C06",
         technique="TLA+ spec Selection.tla (+Weighted.tla): every random decision an explicit choice; TLC invariant ResultSound over all small populations x configurations; every configuration replayed on Vec/VecDeque/array populations of probe individuals (member identity by address); random selections incl. weighted / nested / type-erased combinations trace-validated by TLC",
-        text="For every selector configuration over every population of 0..3/4 individuals (empty, singleton, ties, duplicates, tournament sizes up to n+1, lexicase case counts around the available results, ragged results) TLC derives the exact set of allowed results (a member index or the documented error with its payload) and checks soundness; the real selectors are run on each of them repeatedly and must return that very element (located by address) or exactly that error, never panic; thousands of random selections, including random weighted trees of the real selectors and their Box<dyn DynSelector> form, must be explainable by the specification. DynWeighted objects are extended step by step with selections in between; tournaments larger than the population are replayed with sizes up to usize::MAX; every configuration is also run on populations of the repository's EcIndividual with shared genomes; large populations (257-1279 members, extremes at chosen positions) are part of the traces.",
+        text="For every selector configuration over every population of 0..3/4 individuals (empty, singleton, ties, duplicates, tournament sizes up to n+1, lexicase case counts around the available results, ragged results) TLC derives the exact set of allowed results (a member index or the documented error with its payload) and checks soundness; the real selectors are run on each of them repeatedly and must return that very element (located by address) or exactly that error, never panic; thousands of random selections, including random weighted trees of the real selectors and their Box<dyn DynSelector> form, must be explainable by the specification. DynWeighted objects are extended step by step with selections in between; tournaments larger than the population are replayed with sizes up to usize::MAX; every configuration is also run on populations of the repository's EcIndividual with shared genomes; large populations (257-1279 members, extremes at chosen positions) are part of the traces. Half of all selections go through long-lived selector objects and one refilled population vector (history-dependent state shows); the population answers for its own size and emptiness.",
         note="Member identity = address equality with an element of the population passed in. Error texts are not compared; payloads are."),
     "C07": dict(
         cat="model_checking", ref="DESIGN.md §4 C07",
@@ -74,7 +74,7 @@ CHECKS = {
     "C14": dict(
         cat="model_checking", ref="DESIGN.md §4 C14",
         technique="TLA+ spec Compose.tla (big-step Eval threading stream position, call count and call log); TLC over every well-typed expression of depth <= 2 x input shape x failure position with LeftToRight / StopsAtFirstFailure / ErrorLocates invariants; every case replayed on the real combinators built through the Composable API; random deeper compositions trace-validated",
-        text="Evaluation order, data flow, randomness consumption and error location of then / and / map (pair, array, vector) / repeat / identity / constant and the Mutate / Recombine wrappers (by value, by reference and around a boxed trait object) are an explicit evaluation function; TLC enumerates all small well-typed expressions with a failure injected at every component call and checks the clauses; each case is executed on the real combinators with component operators that log (id, input, stream position) under a counting RNG, comparing value, error path, call log and words consumed; random compositions of depth 5 (tens of calls) are checked by TLC against the same function. Select / GenomeExtractor / GenomeScorer are expressions of the specification too (scorer-call log, the genome maker's error passed through untouched), including pipeline-shaped compositions; error steps are read independently of the wording of error messages.",
+        text="Evaluation order, data flow, randomness consumption and error location of then / and / map (pair, array, vector) / repeat / identity / constant and the Mutate / Recombine wrappers (by value, by reference and around a boxed trait object) are an explicit evaluation function; TLC enumerates all small well-typed expressions with a failure injected at every component call and checks the clauses; each case is executed on the real combinators with component operators that log (id, input, stream position) under a counting RNG, comparing value, error path, call log and words consumed; random compositions of depth 5 (tens of calls) are checked by TLC against the same function. Select / GenomeExtractor / GenomeScorer are expressions of the specification too (scorer-call log, the genome maker's error passed through untouched), including pipeline-shaped compositions; error steps are read independently of the wording of error messages. Every second case is applied to a composition object that was applied before (without failure, failing early, failing late).",
         note="Combinator and error types are private to ec-core; the harness builds compositions with the public Composable methods and reads error variants from Debug/Display/source(). Select / GenomeExtractor / GenomeScorer wrappers are covered under C15-C17."),
     "C16": dict(
         cat="other", ref="DESIGN.md §4 C16",
@@ -84,7 +84,7 @@ CHECKS = {
     "C17": dict(
         cat="other", ref="DESIGN.md §4 C17",
         technique="TLA+ spec Functional.tla with wrapper-free keys; differential trace validation over all 7 pointer kinds x 4 auto-trait sets x 5 erased traits x several wrapped implementations; the flavour table is a separate cargo target so a missing generated impl is a reported violation",
-        text="For DynSelector, DynMutator, DynRecombinator, DynOperator and DynChildMaker, behind &, &mut, Box, Arc, Rc, Ref and RefMut, each with no / Send / Sync / Send+Sync bounds, the erased call must return the same individual / genome / value, the same error text, consume the same number of words and leave the generator in the same state as the concrete operator, for library operators, an always-failing one and one that consumes a data-dependent number of words; erased error types: the boxed default, a harness type with dedicated and catch-all conversions, and the repository's own wrapper errors (CrossoverGeneError, DynWeightedError) whose text and diagnostic must be the wrapped error's. Exhaustive over flavours; seeds are sampled.",
+        text="For DynSelector, DynMutator, DynRecombinator, DynOperator and DynChildMaker, behind &, &mut, Box, Arc, Rc, Ref and RefMut, each with no / Send / Sync / Send+Sync bounds, the erased call must return the same individual / genome / value, the same error text, consume the same number of words and leave the generator in the same state as the concrete operator, for library operators, an always-failing one and one that consumes a data-dependent number of words; erased error types: the boxed default, a harness type with dedicated and catch-all conversions, and the repository's own wrapper errors (CrossoverGeneError, DynWeightedError) whose text and diagnostic must be the wrapped error's. Two threads are inside make_child of one erased child maker at once (Arc and & flavours with Send + Sync). Exhaustive over flavours; seeds are sampled.",
         note="Differential; results compared through Debug / Display renderings."),
     "C18": dict(
         cat="model_checking", ref="DESIGN.md §4 C18",
@@ -99,7 +99,7 @@ CHECKS = {
     "C19": dict(
         cat="model_checking", ref="DESIGN.md §4 C19",
         technique="TLA+ spec Builder.tla with the builder's type-state as explicit state (Legal = the type-level guard of each generated method, Apply = its run-time effect); TLC over all call sequences <= 5/6 with the property's clauses as invariants, and the type-state legality table under a VIEW; Rust programs GENERATED from TLC's sequences: well-typed ones compiled and run on PushState and on a second struct, ill-typed ones must be rejected by rustc",
-        text="TLC explores every builder call sequence of up to 5 (thorough 6) calls and checks contents-as-supplied (first value on top, repeated loads stack up), maximum = last set, program order, inputs by name, overflow reported at the overflowing call, build impossible without sizes + program decision + step limit, and no resize after values; a stratified sample of those sequences (all short ones) is turned into Rust, compiled and run against the real generated builder of PushState and of AltState (different number / order / naming of stacks, renamed methods, newtype-twin stacks, accessors cross-checked against fields); for every reachable type-state x call kind the legality table becomes one generated function that must compile iff the specification says the call is legal.",
+        text="TLC explores every builder call sequence of up to 5 (thorough 6) calls and checks contents-as-supplied (first value on top, repeated loads stack up), maximum = last set, program order, inputs by name, overflow reported at the overflowing call, build impossible without sizes + program decision + step limit, and no resize after values; a stratified sample of those sequences (all short ones) is turned into Rust, compiled and run against the real generated builder of PushState and of AltState (different number / order / naming of stacks, renamed methods, newtype-twin stacks, accessors cross-checked against fields); for every reachable type-state x call kind the legality table becomes one generated function that must compile iff the specification says the call is legal. The legality table is explored once per last call kind (3858 (type-state, call) pairs for the four structs), so every transition of the type-state machine is followed by the calls it must refuse.",
         note="Generated-test approach (model-based test generation) rather than model checking of rustc. AltState is a cfg-guarded hook inside the push crate because the macro's HasStack impls fail coherence in external crates (recorded in DESIGN as an observation)."),
 }
 
